@@ -197,31 +197,26 @@ Record ex := {
   xcharged : Z;             (* sum of the penalties applied (apply_penalty) *)
   xburnt : Z;               (* value successfully sent to the burnt-funds actor *)
   xpaid : Z;                (* value successfully sent to the reporter *)
-  xkept : Z;                (* reporter reward taken out of the debt whose transfer failed and that
-                               was not burnt either (report_consensus_fault) *)
   xout : Z;                 (* value successfully sent to anybody else (withdrawal payee) *)
 }.
 
 Definition ex0 (s : state) (replies : list Z) : ex :=
-  {| st := s; rp := replies; lg := []; xcharged := 0; xburnt := 0; xpaid := 0; xkept := 0; xout := 0 |}.
+  {| st := s; rp := replies; lg := []; xcharged := 0; xburnt := 0; xpaid := 0; xout := 0 |}.
 Definition with_st (x : ex) (s : state) : ex :=
   {| st := s; rp := rp x; lg := lg x; xcharged := xcharged x; xburnt := xburnt x; xpaid := xpaid x;
-     xkept := xkept x; xout := xout x |}.
+     xout := xout x |}.
 Definition add_charged (x : ex) (a : Z) : ex :=
   {| st := st x; rp := rp x; lg := lg x; xcharged := xcharged x + a; xburnt := xburnt x;
-     xpaid := xpaid x; xkept := xkept x; xout := xout x |}.
+     xpaid := xpaid x; xout := xout x |}.
 Definition add_burnt (x : ex) (a : Z) : ex :=
   {| st := st x; rp := rp x; lg := lg x; xcharged := xcharged x; xburnt := xburnt x + a;
-     xpaid := xpaid x; xkept := xkept x; xout := xout x |}.
+     xpaid := xpaid x; xout := xout x |}.
 Definition add_paid (x : ex) (a : Z) : ex :=
   {| st := st x; rp := rp x; lg := lg x; xcharged := xcharged x; xburnt := xburnt x;
-     xpaid := xpaid x + a; xkept := xkept x; xout := xout x |}.
-Definition add_kept (x : ex) (a : Z) : ex :=
-  {| st := st x; rp := rp x; lg := lg x; xcharged := xcharged x; xburnt := xburnt x;
-     xpaid := xpaid x; xkept := xkept x + a; xout := xout x |}.
+     xpaid := xpaid x + a; xout := xout x |}.
 Definition add_out (x : ex) (a : Z) : ex :=
   {| st := st x; rp := rp x; lg := lg x; xcharged := xcharged x; xburnt := xburnt x;
-     xpaid := xpaid x; xkept := xkept x; xout := xout x + a |}.
+     xpaid := xpaid x; xout := xout x + a |}.
 
 (* rt.send: consumes one reply; a successful send moves `value` out of the balance *)
 Definition xsend (x : ex) (to_ m value arg : Z) : ex * Z :=
@@ -229,7 +224,7 @@ Definition xsend (x : ex) (to_ m value arg : Z) : ex * Z :=
   let s := st x in
   let s' := if r =? 0 then set_bal s (bal s - value) else s in
   ({| st := s'; rp := rest; lg := lg x ++ [(to_, m, value, arg, r)]; xcharged := xcharged x;
-      xburnt := xburnt x; xpaid := xpaid x; xkept := xkept x; xout := xout x |}, r).
+      xburnt := xburnt x; xpaid := xpaid x; xout := xout x |}, r).
 
 (* extract_send_result(..)? : a failed send aborts the handler with the callee's exit code *)
 Definition call (x : ex) (to_ m value arg : Z) : res ex :=
@@ -301,10 +296,12 @@ Definition h_report_fault (x : ex) (reporter epoch : Z) (fault : option (bool * 
     let reward_amount := Z.min burn0 slasher_reward in
     let burn_amount := burn0 - reward_amount in
     let x4 := with_st x3 (set_cfe (st x3) (epoch + CONSENSUS_FAULT_INELIGIBILITY_DURATION)) in
-    (* the reporter send is made unconditionally and its failure is TOLERATED *)
+    (* the reporter send is made unconditionally and its failure is TOLERATED: a reward that could
+       not be sent is burnt with the rest *)
     let '(x5, r) := xsend x4 reporter METHOD_SEND reward_amount 0 in
-    let x6 := if r =? 0 then add_paid x5 reward_amount else add_kept x5 reward_amount in
-    bind (burn_funds x6 burn_amount) (fun x7 =>
+    let '(x6, burn_amount') :=
+      if r =? 0 then (add_paid x5 reward_amount, burn_amount) else (x5, burn_amount + reward_amount) in
+    bind (burn_funds x6 burn_amount') (fun x7 =>
     bind (notify_pledge_changed x7 (- total)) finish))))
   end.
 
@@ -553,15 +550,14 @@ Record outcome := {
   charged : Z;         (* total of the penalties applied by this invocation *)
   burnt : Z;           (* sent to the burnt-funds actor *)
   reporter_paid : Z;   (* sent to the reporter *)
-  kept : Z;            (* taken out of the fee debt but neither burnt nor paid (F5) *)
   paid_out : Z;        (* sent to the withdrawal payee *)
   sends : list sendrec;
 }.
 
 Definition fail (c : Z) : outcome :=
-  {| code := c; charged := 0; burnt := 0; reporter_paid := 0; kept := 0; paid_out := 0; sends := [] |}.
+  {| code := c; charged := 0; burnt := 0; reporter_paid := 0; paid_out := 0; sends := [] |}.
 Definition outcome_of (x : ex) : outcome :=
-  {| code := EOK; charged := xcharged x; burnt := xburnt x; reporter_paid := xpaid x; kept := xkept x;
+  {| code := EOK; charged := xcharged x; burnt := xburnt x; reporter_paid := xpaid x;
      paid_out := xout x; sends := lg x |}.
 
 Definition step (s : state) (o : op) : state * outcome :=
@@ -593,11 +589,13 @@ Definition penalised_name (o : op) : list string :=
   | _ => []
   end.
 
-(* ---- observation encoding ---- *)
+(* ---- observation encoding ----
+   the fifth slot of an outcome is the implementation's accounting discrepancy
+   fee_debt + charged - fee_debt' - burnt - reporter_paid, which the model says is 0 *)
 Definition enc_sends (l : list sendrec) : list Z :=
   Z.of_nat (List.length l) :: flat_map (fun '(t, m, v, a, r) => [t; m; v; a; r]) l.
 Definition enc_outcome (o : outcome) : list Z :=
-  [code o; charged o; burnt o; reporter_paid o; kept o; paid_out o] ++ enc_sends (sends o).
+  [code o; charged o; burnt o; reporter_paid o; 0; paid_out o] ++ enc_sends (sends o).
 Definition enc_state (s : state) : list Z := [bal s; locked s; pcd s; ip s; fee_debt s; cfe s].
 
 (* one correspondence step = one top-level message = the invocations it made on the miner actor that
@@ -617,4 +615,4 @@ Definition check_case := @Corr.check state (list op) stepo.
 
 (* ---- boolean monitors (the per-event predicates of the property) ---- *)
 Definition accounting_b (s : state) (s' : state) (o : outcome) : bool :=
-  fee_debt s' + burnt o + reporter_paid o + kept o =? fee_debt s + charged o.
+  fee_debt s' + burnt o + reporter_paid o =? fee_debt s + charged o.
